@@ -186,6 +186,14 @@ def run_v(res, unit_files, rlimit=None, filter_units=None):
     vac_units = [u["unit"] for u in ov1.units if u.get("vacuity", True)]
     # ---- record obligations
     safety_failed = {k.split("[")[0]: v for k, v in failed.items() if ".safety" in k}
+    # An inserted proof HINT (`proof { assert(..) }`, kind "proof") is an artifact of the proof, not a clause of the contract.
+    # When one fails, Verus goes on ASSUMING it, so every other verdict in that function is conditional on a false-able fact:
+    # nothing in that unit is evidence about the code -> the unit is UNDECIDED (never an alarm).
+    hint_failed_units = {o["unit"] for o in ov1.obligations if o["kind"] == "proof" and o["id"] in failed}
+    for u_ in sorted(hint_failed_units):
+        hints = [o["id"] for o in ov1.obligations if o["unit"] == u_ and o["kind"] == "proof" and o["id"] in failed]
+        res.undecided.append(f"unit {u_}: inserted proof hint(s) {hints} no longer hold where they are anchored; the proof (not necessarily the "
+                             f"code) is broken, the unit's other verdicts are conditional on them")
     for o in ov1.obligations:
         if filter_units and not filter_units(o["unit"]):
             continue
@@ -199,6 +207,8 @@ def run_v(res, unit_files, rlimit=None, filter_units=None):
             st, detail = "failed", failed[oid]
         elif o["kind"] == "implicit" and oid in safety_failed:
             st, detail = "failed", safety_failed[oid]
+        if st == "failed" and o["unit"] in hint_failed_units:
+            st = "undecided"
         if tool_errors or not r1["summary"]:
             if st == "discharged":
                 st = "undecided"
